@@ -116,3 +116,9 @@ Proof.
   unfold unbracketed_leaks_stmt.
   repeat split; try reflexivity. intros mode m m' H. cbn. exact H.
 Qed.
+
+(* scope of the table: no file of libfive/src, libfive/include, libfive/stdlib other than interval.hpp names a Boost
+   interval primitive or a rounding-mode / FP-environment setter (so the operations above are the only places where the
+   rounding mode is touched on purpose; what the compiler and libm do is the run-time sweep's business) *)
+Lemma no_foreign_fpenv_sites : fpenv_foreign_sites = [] /\ 100 <= fpenv_files_scanned.
+Proof. split; [reflexivity | vm_compute; repeat constructor]. Qed.
